@@ -48,14 +48,16 @@ META = {
     "bounded_standins": ["cross-check only: average of a constant field with explicit finite sums, n in {2,3} (the unbounded proof is `average-constant`)"],
 }
 
-LAY = {"X": ("center", "left"), "Y": ("center", "left"), "Z": ("center", "outer")}
+LAY = {"X": ("center", "left", "outer"), "Y": ("center", "left"), "Z": ("center", "outer")}
 POOL = {
     "dx_c": (("X",), ("x_c",)), "dx_l": (("X",), ("x_l",)), "dy_c": (("Y",), ("y_c",)), "dy_l": (("Y",), ("y_l",)),
     "dz_c": (("Z",), ("z_c",)), "a_cc": (("X", "Y"), ("x_c", "y_c")), "a_lc": (("X", "Y"), ("x_l", "y_c")),
     "yz_cc": (("Y", "Z"), ("y_c", "z_c")), "vol": (("X", "Y", "Z"), ("x_c", "y_c", "z_c")), "dx_cy": (("X",), ("x_c", "y_c")),
+    "dx_o": (("X",), ("x_o",)),
 }
 REG_OPTS = {
-    ("X",): [[], ["dx_c"], ["dx_l"], ["dx_c", "dx_l"], ["dx_l", "dx_c"], ["dx_cy"]],
+    # (three entries: the one at the array's position may be first, in the middle or last)
+    ("X",): [[], ["dx_c"], ["dx_l"], ["dx_c", "dx_l"], ["dx_l", "dx_c"], ["dx_cy"], ["dx_l", "dx_c", "dx_o"], ["dx_o", "dx_l", "dx_c"]],
     ("Y",): [[], ["dy_c"], ["dy_l", "dy_c"]],
     ("X", "Y"): [[], ["a_cc"], ["a_lc"], ["a_cc", "a_lc"]],
     ("Z",): [[], ["dz_c"]],
@@ -63,7 +65,7 @@ REG_OPTS = {
     ("X", "Y", "Z"): [[], ["vol"]],
 }
 ARRAYS = {"ccc": ("t", "z_c", "y_c", "x_c"), "lcc": ("t", "z_c", "y_c", "x_l"), "clo": ("x_c", "y_l", "z_o"), "cc": ("y_c", "x_c"), "lc": ("x_l", "y_c"), "cl": ("x_c", "y_l"), "ll": ("t", "y_l", "x_l")}
-DIM_AX = {"x_c": ("X", "center"), "x_l": ("X", "left"), "y_c": ("Y", "center"), "y_l": ("Y", "left"), "z_c": ("Z", "center"), "z_o": ("Z", "outer")}
+DIM_AX = {"x_o": ("X", "outer"), "x_c": ("X", "center"), "x_l": ("X", "left"), "y_c": ("Y", "center"), "y_l": ("Y", "left"), "z_c": ("Z", "center"), "z_o": ("Z", "outer")}
 
 
 def reg_sid(reg):
@@ -115,7 +117,7 @@ class DemonicFrozenSet(frozenset):
 def build(w, reg):
     layout = make_layout(LAY)
     # dims named x_c etc.
-    layout = {"X": {"center": "x_c", "left": "x_l"}, "Y": {"center": "y_c", "left": "y_l"}, "Z": {"center": "z_c", "outer": "z_o"}}
+    layout = {"X": {"center": "x_c", "left": "x_l", "outer": "x_o"}, "Y": {"center": "y_c", "left": "y_l"}, "Z": {"center": "z_c", "outer": "z_o"}}
     ns = {a: w.size(f"n_{a}", 2) for a in LAY}
     dims = {}
     for a in LAY:
@@ -148,7 +150,7 @@ def admissible(reg, arr_dims, req, ds, layout, ns, prefer_wrong=False):
     A = frozenset(req)
     R = {frozenset(tokey(k)): list(v) for k, v in reg.items() if v}
 
-    def factor_options(block):
+    def all_options(block):
         opts = []
         for name in R[block]:
             var = ds[name]
@@ -159,9 +161,16 @@ def admissible(reg, arr_dims, req, ds, layout, ns, prefer_wrong=False):
                 d2, g2 = interp_spec(var, arr_dims, layout, ns)
                 opts.append((d2, g2, True))
         return opts
+
+    def factor_options(block):
+        # the statement, for the exact set and for every block of a partition alike: the variable located at the array's position if
+        # there is one, otherwise one of the registered ones interpolated to it
+        opts = all_options(block)
+        at = [o for o in opts if not o[2]]
+        return at if at else opts
     if A in R:
-        at = [o for o in factor_options(A) if not o[2]]
-        notat = [o for o in factor_options(A) if o[2]]
+        at = [o for o in all_options(A) if not o[2]]
+        notat = [o for o in all_options(A) if o[2]]
         if prefer_wrong:
             return notat or at
         return at if at else notat
@@ -478,11 +487,11 @@ def replay(ob):
     warnings.simplefilter("ignore")
     wit = ob.get("witness") or {}
     rng = np.random.default_rng(3)
-    n = {"x_c": 4, "x_l": 4, "y_c": 3, "y_l": 3, "z_c": 2, "z_o": 3, "t": 2}
+    n = {"x_c": 4, "x_l": 4, "x_o": 5, "y_c": 3, "y_l": 3, "z_c": 2, "z_o": 3, "t": 2}
     ds = xr.Dataset(coords={d: np.arange(k) for d, k in n.items()})
     for name, (_, dd) in POOL.items():
         ds[name] = (dd, rng.random(tuple(n[d] for d in dd)) + 0.5)
-    coords = {"X": {"center": "x_c", "left": "x_l"}, "Y": {"center": "y_c", "left": "y_l"}, "Z": {"center": "z_c", "outer": "z_o"}}
+    coords = {"X": {"center": "x_c", "left": "x_l", "outer": "x_o"}, "Y": {"center": "y_c", "left": "y_l"}, "Z": {"center": "z_c", "outer": "z_o"}}
     if wit.get("part") == "get":
         reg = wit["reg"]
         g = xgcm.Grid(ds, coords=coords, periodic=False, metrics={tokey(k): v for k, v in reg.items() if v}, autoparse_metadata=False)
@@ -496,14 +505,11 @@ def replay(ob):
             R = {frozenset(tokey(k)): v for k, v in reg.items() if v}
 
             def fopts(block):
-                o = []
-                for name in R[block]:
-                    var = ds[name].reset_coords(drop=True)
-                    if set(var.dims) <= set(adims):
-                        o.append(var)
-                    else:
-                        o.append(g.interp_like(var, arr, "extend", None))
-                return o
+                # the variable located at the array's position if there is one, otherwise one of them interpolated to it
+                at = [ds[name].reset_coords(drop=True) for name in R[block] if set(ds[name].dims) <= set(adims)]
+                if at:
+                    return at
+                return [g.interp_like(ds[name].reset_coords(drop=True), arr, "extend", None) for name in R[block]]
             if A in R:
                 vs = [ds[nm].reset_coords(drop=True) for nm in R[A] if set(ds[nm].dims) <= set(adims)]
                 return vs if vs else fopts(A)
